@@ -133,7 +133,15 @@ func typedDeprecationMemo(repU *Report) {
 
 // ---- C14: a sink never changes what the other sinks of the same Copy / the consumer behind a Tee see ----
 
-func streamsSharedToken(rep *Report) {
+func streamsSharedToken(rep *Report, props ...string) {
+	if len(props) == 0 {
+		props = []string{"C14"}
+	}
+	viol := func(key, what, input string) {
+		for _, p := range props {
+			rep.violate(p, key, what, input)
+		}
+	}
 	lit := func(s string) sb.Token { return sb.Token{Kind: sb.KindLiteral, Value: s} }
 	type tgt struct {
 		name string
@@ -177,14 +185,14 @@ func streamsSharedToken(rep *Report) {
 				rep.count("c14:shared-token")
 				// the recorder sees a prefix of the source (the whole of it unless the other sink failed first)
 				if len(rec) > len(ts) || !tokensExactEq(rec, ts[:len(rec)]) {
-					rep.violate("C14", "sink-changes-what-others-see", fmt.Sprintf("a recording sink next to an Unmarshal sink (order %d) saw [%s], the source delivers [%s]", order, descTokens(rec), descTokens(ts)), desc)
+					viol("sink-changes-what-others-see", fmt.Sprintf("a recording sink next to an Unmarshal sink (order %d) saw [%s], the source delivers [%s]", order, descTokens(rec), descTokens(ts)), desc)
 				}
 			}
 			// Tee with an unmarshalling side sink: the consumer behind it
 			out, _ := collect(sb.Tee(tokensFrom(ts), sb.Unmarshal(tg.mk())))
 			rep.Evaluations++
 			if len(out) > len(ts) || !tokensExactEq(out, ts[:len(out)]) {
-				rep.violate("C14", "sink-changes-what-others-see", fmt.Sprintf("behind a Tee with an Unmarshal side sink the consumer saw [%s], the source delivers [%s]", descTokens(out), descTokens(ts)), desc)
+				viol("sink-changes-what-others-see", fmt.Sprintf("behind a Tee with an Unmarshal side sink the consumer saw [%s], the source delivers [%s]", descTokens(out), descTokens(ts)), desc)
 			}
 		}
 	}
